@@ -115,6 +115,9 @@ ATOMS = CORE + [
     "^^", "^^\xe9", "\\ ", "\\\\", "\\%", "\\par", "\\@x", "\\foo", "\\foo@", "\\foo@ ", "\\x ", "\\\xe9",
     "\\\xe9 ", "\\  ", "\\^^M", "\\a^^\"c", "\\~", "x ", "%c\n", "%", "^", "\\", "~ ", "{ ", "\\par\n\n",
     "a\n", "a \n b", "\\foo\n", "\\foo \n",
+    # a word ended by a comment, then a blank line (state N after the comment: \par), also as a second
+    # paragraph break of the input
+    "b%\n\n", "7%c\n\nx", "%\n\n", "a\n\nb%\n\nc",
 ]
 OPCHARS = SPECIALS + [" ", "\t", "\n", "\r", "\x00", "\x7f", "a", "x", "M", "@", "\xe9", "0", "[", "\"", "!"]
 OPCODES = list(range(16)) + [0, 5, 7, 9, 10, 11, 11, 13, 14, 15]
